@@ -121,7 +121,9 @@ func (s *clientState) raceRun(tok []string) (res string) {
 		if err != nil {
 			return "loaderr;" + hx(err.Error())
 		}
-		proxy.VerifSetTimings(hour, hour, hour)
+		if !s.keepTimings {
+			proxy.VerifSetTimings(hour, hour, hour)
+		}
 		s.tr.configured(tok[3:])
 		s.pm.UpdateAll(cfgs)
 		return "-"
